@@ -14,7 +14,7 @@ for f in json.load(open('/verif/known_findings.json'))['findings']:
 PY
 while read prop commit; do
   p=.work/revert/revert-$commit-$prop.patch
-  git -C /repo show -R --format= $commit -- . ':(exclude)*_test.go' > $p
+  git -C /repo diff $commit $commit^ -- . ':(exclude)*_test.go' > $p
   out=$(bin/vcheck mutant $p $prop --skip-tests 2>&1)
   code=$(echo "$out" | grep -a -o "check $prop -> exit [0-9]" | sed 's/.*exit //' | head -1)
   clauses=$(echo "$out" | grep -a -o "clause=[a-z0-9-]*" | sort -u | sed 's/clause=//' | paste -sd' ')
